@@ -47,18 +47,21 @@ MODEL_SCOPE = ("modelled by hand and tied by the lex lane (not verified against 
 
 prop(
     "C01",
-    ["LolHtml.Thm.C01"],
+    ["LolHtml.Thm.C01", "LolHtml.Thm.C01_Total"],
     [{"lane": "lex", "n_quick": 4000, "n_thorough": 200000},
      {"lane": "pass", "n_quick": 3000, "n_thorough": 60000, "impl_only": True}],
     LEX_RULE + "; lane pass (implementation only): public HtmlRewriter in all 36 ASCII-compatible encodings, documents whose text the encoding round-trips, cuts anywhere incl. inside multi-byte characters, 6 observer handler sets",
     ["observing controller = tokens serialise to their raw bytes (the property's own round-trip exception for captured text), emission never disabled, nothing appended at document end",
-     "runs that reach one of the model's explicit panic branches (Rust debug assertions / clamped slices) are not successful runs; their unreachability is C15's subject",
+     "C01_passthrough is conditional on all calls succeeding; C01_passthrough_total removes that for controllers that never fail and never request aux info (non-strict mode, bytes written <= memory limit), with ONE remaining run hypothesis: no call panics at the RequestLexeme callback assertion (scanner/lexer agreement, C06_relex_same_tag locally; global threading open, see C15)",
      MODEL_SCOPE],
     level_text=("Lean 4 theorem C01_passthrough: for EVERY tokenizer table, tag configuration, settings, observing controller "
                 "(arbitrary capture-flag decision at every tag, i.e. arbitrary scanner/lexer switching), byte string and split into "
                 "writes (empty writes included): if all calls succeed the sink bytes equal the bytes written; plus the per-write "
                 "invariant sink ++ retained = written. Proved by a generic sink-preservation theorem over the DSL interpreter "
-                "(Lemmas/Preserve) and a dispatcher tiling invariant (Lemmas/Tiling). The model is tied to the code by the lex "
+                "(Lemmas/Preserve) and a dispatcher tiling invariant (Lemmas/Tiling). C01_passthrough_total: for every table passing the "
+                "kernel-checked C15 side-conditions, a never-failing observing controller, non-strict mode and input within the "
+                "memory limit, EVERY write and the end return ok and the sink bytes equal the input (error provenance: parse can "
+                "only fail by a panic at a U2 site). The model is tied to the code by the lex "
                 "correspondence lane (model vs real TransformStream on generated cases) and the direct oracle sink == input."),
     level_note=("Trusted: Lean kernel (axioms propext, Quot.sound only), the hand-written model of the dispatcher/parser glue "
                 "(checked by the lex lane, not proved equal to the Rust), the DSL/tag translators. Not covered: decode/encode "
@@ -138,18 +141,24 @@ prop(
 
 prop(
     "C08",
-    ["LolHtml.Thm.C08_Escape"],
+    ["LolHtml.Thm.C08_Escape", "LolHtml.Thm.C08_Real", "LolHtml.Thm.C08_Codec"],
     [{"lane": "esc", "n_quick": 3000, "n_thorough": 30000}],
-    "lane esc: body text / attribute values / comment text / attribute names / tag names biased to <>&\"'-!/= whitespace NUL comment terminators non-BMP unmappable; utf-8 and x-user-defined",
-    ["theorems are for UTF-8 documents (identity codec); other encodings are exercised by the lane and the re-tokenising oracle only",
+    "lane esc: body text / attribute values / comment text / attribute names / tag names biased to <>&\"'-!/= whitespace NUL comment terminators non-BMP unmappable; utf-8 and x-user-defined; `attrseq` cases: two set_attribute calls with multi-byte names in Shift_JIS / Big5 / GBK / UTF-8 (encoded name verified against encoding_rs)",
+    ["encodings: the codec-generic theorems (C08_Codec) hold for every lawful codec in which a non-ASCII scalar never encodes to a byte below 0x40 (StructSafe: proved for UTF-8, windows-1252, iso-8859-7 and the toy two-byte codec; gb18030's digit trail bytes are outside it); the other encodings are exercised by the lane and the re-tokenising oracle",
+     "known finding F22: names are compared ASCII-case-insensitively on the ENCODED bytes (Shift_JIS/Big5/GBK trail bytes): duplicate attributes / debug_assert; C08_F22_counterexample",
      "escape maps, reject lists and closing sequences are re-extracted from the Rust text on every run (translate/consts2lean.py); 20 side-conditions by decide", PKG_SCOPE],
     level_text=("Lean 4 theorems on the generated constants: escaped body text contains no < > and only complete entities and "
                 "decodes back (C08_body_no_markup), is one data-state run (C08_body_text_run); attribute values contain no "
                 "double quote; set_text accepts iff the WHATWG comment machine ends exactly at the final --> (C08_comment_iff, "
                 "necessary and sufficient); accepted tag/attribute names read back whole and each rejected byte splits a name "
                 "(C08_tag_name_iff, C08_attr_name_*); an accepted attribute re-parses as exactly one attribute "
-                "(C08_attribute_reads_back); setters leave the token unchanged on error (C08_reject_unchanged_*)."),
-    level_note="Trusted: Lean kernel; consts translator; small specs of the WHATWG comment / tag-name / attribute states written for this package.",
+                "(C08_attribute_reads_back); setters leave the token unchanged on error (C08_reject_unchanged_*). ON THE REAL LEXER "
+                "MODEL (generated table, recording sink, any prefix and any following input): escaped text is exactly one text "
+                "lexeme (C08_text_real), an accepted tag name / attribute serialises to exactly one start-tag lexeme whose name "
+                "and value ranges hold exactly the given bytes (C08_tagname_real, C08_attr_real), accepted comment text gives "
+                "exactly one comment lexeme with text range = the text (C08_comment_real) and rejected text ends the comment "
+                "early (C08_comment_real_early); codec-generic versions for lawful structure-safe codecs (C08_*_codec)."),
+    level_note="Trusted: Lean kernel; consts + DSL translators; small specs of the WHATWG comment / tag-name / attribute states (round 1); the real-lexer theorems use the core model tied by lane lex.",
     technique="Lean 4 proof (list induction; decidable side-conditions on translated constants) + correspondence lane + re-tokenising oracle",
     design_ref="DESIGN.md section 4 C08",
 )
@@ -194,11 +203,11 @@ prop(
 
 prop(
     "C11",
-    ["LolHtml.Thm.C11"],
+    ["LolHtml.Thm.C11", "LolHtml.Thm.C11_General"],
     [{"lane": "fault", "n_quick": 4000, "n_thorough": 100000},
      {"lane": "proto", "n_quick": 5000, "n_thorough": 100000, "impl_only": True}],
     LEX_RULE + "; lane fault = lane lex plus a handler failure injected at token index 1..8, graceful flags, memory limit and preallocation sweeps (model vs real TransformStream); lane proto (implementation only): public HtmlRewriter in all 36 encodings with end / bail-out content, token mutations with empty strings, a failure injected at handler invocation index 1..11 or by memory limit, graceful flags on/off, preallocation sizes, cuts anywhere: byte preservation and bail-out handler count",
-    ["proved for observing controllers (handlers that inspect and may FAIL at any invocation but do not mutate); rewritten tokens / removed content / partly emitted text nodes (the property's documented exceptions) are exercised by lanes only",
+    ["the exact sink CONTENT (written.take j ++ handler output ++ written.drop j) is proved for observing controllers (handlers that inspect and may FAIL at any invocation but do not mutate); for arbitrary controllers (rewriting, removing, failing) C11_bailout_general proves the shape: log at failure ++ bail-out handler output ++ the unemitted rest of the input from remaining_content_start, unmodified; the end() variant of the general theorem is not stated",
      "an end-handler failure happens after every received byte was emitted; the bail-out handlers are not run then (as coded and as the repository's own test expects)",
      MODEL_SCOPE],
     level_text=("Lean 4 theorem C11_bailout_write: for every table, flag schedule, chunking, memory limit and preallocation, "
@@ -206,7 +215,11 @@ prop(
                 "writes, the sink holds written.take j ++ bail-out-handler output ++ written.drop j with the matching flag "
                 "(handlers ran exactly once), and the prefix written.take j without it (no handler ran); C11_flags: each flag "
                 "recovers only its own kind, ambiguity never; C11_no_bailout_on_success. Built on the C01 tiling invariant, "
-                "which holds at the moment of the error."),
+                "which holds at the moment of the error. C11_bailout_general: for EVERY controller returning only handler-class "
+                "errors (it may rewrite, remove or fail) and every table passing the C15 side-conditions, a failing write leaves "
+                "log-at-failure ++ bail-out output ++ flush(input from the watermark k, k <= |retained ++ data|) with the "
+                "matching flag (two flushed slices only when Arena::append itself failed), and exactly log-at-failure without it; "
+                "the rewriter is poisoned either way."),
     level_note="Trusted: Lean kernel; model of transform_stream/{mod,dispatcher}.rs and memory/arena.rs (lanes lex, mem, memts).",
     technique="Lean 4 proof (tiling invariant holds at every failure point) + correspondence lanes",
     design_ref="DESIGN.md section 4 C11",
@@ -214,18 +227,20 @@ prop(
 
 prop(
     "C12",
-    ["LolHtml.Thm.C12"],
+    ["LolHtml.Thm.C12", "LolHtml.Thm.C12_Prefix"],
     [{"lane": "fault", "n_quick": 4000, "n_thorough": 100000},
      {"lane": "proto", "n_quick": 5000, "n_thorough": 100000, "impl_only": True}],
     LEX_RULE + "; lane fault = lane lex plus injected failures and memory limits; lane proto (implementation only): as for C11, checking the sink-call log against the protocol automaton (encoding first, zero-length chunk exactly once and last on success, never on failure, use after error panics silently)",
     ["content written by end / bail-out handlers goes through the text encoder and is never an empty slice (CleanEnds; the encoder fact is C13_encoder)",
-     "'prefix of the failure-free run' is proved only as monotonicity of the sink log (C12_monotone); the comparison of two runs is checked by lanes",
+     "'prefix of the failure-free run' is proved for memory-limit failures (C12_prefix: the same history under a limit that fails vs a limit >= the bytes written, bail_out_on_memory_limit off); for handler failures the failure-free run is a different controller, so only monotonicity (C12_monotone) and the exact content (C11) are proved",
      MODEL_SCOPE],
     level_text=("Lean 4 theorems for EVERY controller (mutating ones included), table, chunking and failure point: the sink log "
                 "is the encoding notification, then events none of which is a zero-length chunk, then the zero-length chunk iff "
                 "end() succeeded and then last (C12_protocol); a failed call poisons the rewriter and every later call is the "
                 "documented panic with the log unchanged (C12_fail_stop, C12_error_poisons); no call retracts output "
-                "(C12_monotone)."),
+                "(C12_monotone); a run that fails on the memory limit has emitted a prefix (log and bytes) of what the same "
+                "history emits under a sufficient limit, at the same call and at any later point (C12_prefix, a simulation "
+                "relating the two streams up to cap/usage/max)."),
     level_note="Trusted: Lean kernel; model of rewriter/mod.rs guarded!, transform_stream, dispatcher (lane lex).",
     technique="Lean 4 proof (generic sink-preservation over the interpreter + monotone log invariant) + correspondence lane",
     design_ref="DESIGN.md section 4 C12",
